@@ -237,6 +237,19 @@ impl CodeFormatter {
         };
         if let Some(next_token) = &tokens.get(trivia_idx) {
             next_token.trivia().map(|t| self.fmt(t));
+
+            // Line breaks are taken from the source, so two statements that share a source line need one of their own
+            // (code that follows a plain label stays on the label's line)
+            if let Some(idx) = token_idx {
+                let has_newline = next_token
+                    .trivia()
+                    .map(|t| t.iter().any(|t| matches!(t, Trivia::NewLine)))
+                    .unwrap_or_default();
+                let after_plain_label = matches!(&tokens[idx], Token::Label { block: None, .. });
+                if !has_newline && !after_plain_label && !matches!(next_token, Token::Eof(_)) {
+                    self.push("\n");
+                }
+            }
         }
     }
 
